@@ -166,13 +166,23 @@ func genRun(c *core.Ctx, g genCombo, cases []shapes.Case, gomod string, extra ma
 		}
 	}()
 	c.Ev.Add("transitions", 1)
-	o := &genOutcome{exit: r.Exit, stderr: firstN(r.Stderr, 1500), panicked: r.Panicked() || r.TimedOut, dir: m.Dir}
+	if core.ResourceFailure(r) {
+		m.Remove()
+		return nil, nil, errResources
+	}
+	o := &genOutcome{exit: r.Exit, stderr: firstN(r.Stderr, 1500), panicked: r.Panicked(), dir: m.Dir}
 	o.text, _ = m.Read(g.outFile())
 	if r.Exit == 0 {
 		_, errs, lerr := gocheck.Load(m.Dir, core.UserEnv(), "", true, "./src/...", "./mocks/...")
 		if lerr != nil {
 			m.Remove()
 			return nil, nil, lerr
+		}
+		for _, e := range errs {
+			if strings.Contains(e.Msg, "signal: killed") || strings.Contains(e.Msg, "cannot allocate memory") {
+				m.Remove()
+				return nil, nil, errResources
+			}
 		}
 		o.errs = errs
 	}
@@ -182,6 +192,8 @@ func genRun(c *core.Ctx, g genCombo, cases []shapes.Case, gomod string, extra ma
 	}
 	return o, m, nil
 }
+
+var errResources = fmt.Errorf("run given up for lack of resources (timeout or killed)")
 
 var caseNameRe = regexp.MustCompile(`C\d{4}`)
 
@@ -234,6 +246,10 @@ func genExplore(c *core.Ctx, g genCombo, cases []shapes.Case, gomod string, extr
 	}
 	*budget--
 	o, _, err := genRun(c, g, cases, gomod, extra, false)
+	if err == errResources {
+		c.Skip("%s (%d interfaces): %v", g, len(cases), err)
+		return fails
+	}
 	if err != nil {
 		c.Harness("%s: %v", g, err)
 		return fails
